@@ -2,7 +2,7 @@
 from .. import core, sched
 from ..gen import KEY_POOL, rng_for
 
-EXTRA_PROP_MODULES = [("KB.Props.OrderC04", "KB.OrderC04")]
+EXTRA_PROP_MODULES = [("KB.Props.OrderC04", "KB.OrderC04"), ("KB.Props.C04Window", "KB.C04Window")]
 
 ENGINES = ["memkv", "badger", "tikv"]
 
